@@ -16,6 +16,7 @@ use std::time::Duration;
 #[derive(Clone, Debug, Serialize, Deserialize, PartialEq)]
 pub enum MOp {
   ObserveOn,
+  /// delay in units of 100 microseconds (sub-millisecond delays are legal)
   Delay(u32),
   /// instant = build time + off ms
   DelayAt(i32),
@@ -67,9 +68,9 @@ impl Scenario for C07 {
   fn generate(&self, rng: &mut Rng, _tier: Tier) -> Value {
     let op = match rng.below(8) {
       0 | 1 => MOp::ObserveOn,
-      2 | 3 => MOp::Delay(*rng.pick(&[0u32, 1, 5, 20])),
+      2 | 3 => MOp::Delay(*rng.pick(&[0u32, 3, 10, 50, 200])),
       4 => MOp::DelayAt(*rng.pick(&[-5i32, 0, 1, 5, 20])),
-      5 => MOp::DelaySubscription(*rng.pick(&[0u32, 1, 5, 20])),
+      5 => MOp::DelaySubscription(*rng.pick(&[0u32, 3, 10, 50, 200])),
       6 => MOp::DelaySubscriptionAt(*rng.pick(&[-5i32, 0, 1, 5, 20])),
       _ => MOp::SubscribeOn,
     };
@@ -111,7 +112,7 @@ impl Scenario for C07 {
         base_instant() - Duration::from_nanos((-t) as u64)
       }
     };
-    let ms = |d: u32| Duration::from_millis(d as u64);
+    let ms = |d: u32| Duration::from_micros(d as u64 * 100);
     let cold_items: Vec<Val> = (0..case.cold.unwrap_or(0)).map(|i| Val::I(i as i64 + 1)).collect();
     let _sub: Box<dyn std::any::Any> = if !case.threads_flavour {
       let src: rxrust::ops::box_it::BoxOp<'static, Val, E> = match case.cold {
@@ -147,9 +148,9 @@ impl Scenario for C07 {
     let remaining = |off: i32| (off.max(0) as u64) * MS;
     let (item_delay, sub_delay) = match case.op {
       MOp::ObserveOn | MOp::SubscribeOn => (0, 0),
-      MOp::Delay(d) => (d as u64 * MS, 0),
+      MOp::Delay(d) => (d as u64 * MS / 10, 0),
       MOp::DelayAt(off) => (remaining(off), 0),
-      MOp::DelaySubscription(d) => (0, d as u64 * MS),
+      MOp::DelaySubscription(d) => (0, d as u64 * MS / 10),
       MOp::DelaySubscriptionAt(off) => (0, remaining(off)),
     };
     let opname = format!("{:?}", case.op).split('(').next().unwrap().to_string();
